@@ -110,7 +110,8 @@ fn instance(t: &mut Trace, rng: &mut StdRng, max: i64, nkeys: u64, ops: usize, c
             p.clear();
             t.push(json!({"ev":"clear","post":post(&p)}));
         } else if r < 80 {
-            let m = rng.gen_range(1..=max + 3);
+            // zero and negative bounds too: update_max_cost takes them although the builder refuses them
+            let m = if rng.gen_bool(0.3) { [0i64, 0, -1][rng.gen_range(0..3)] } else { rng.gen_range(1..=max + 3) };
             p.update_max_cost(m);
             t.push(json!({"ev":"setmax","max":m,"post":post(&p)}));
         } else if r < 93 {
